@@ -142,6 +142,16 @@ fn history<S: CredentialStore<PasskeyItem = Passkey> + Sync + Send>(rep: &mut Re
             app = a;
             handle = h;
         }
+        if kind == StoreKind::Rec && rng.chance(1, 3) {
+            // key handles as a token produces them that wraps the private key behind a fixed header:
+            // longer than 64 bytes, agreeing with an earlier one of the application in the first 64
+            if let Some((a, h, _, _)) = regs.iter().find(|(_, h, _, _)| h.len() >= 64).cloned() {
+                app = a;
+                handle = h[..64].to_vec();
+                handle.extend_from_slice(&rng.bytes(rng.clone().range(1, 191)));
+                rep.count("key_handles_sharing_their_first_64_bytes");
+            }
+        }
         let hl = handle.len();
         // the shipped in-memory store is keyed by credential id alone (C05's recorded finding): a key
         // handle reused under another application would overwrite there, which is not this property's topic
@@ -332,7 +342,7 @@ pub fn run(args: &Args) -> Report {
         "C17",
         &args.tier,
         args.seed,
-        "register/authenticate sequences over Option<Passkey>, MemoryStore and the reference store with random and patterned challenges/applications, key handles of 0..255 bytes, counters {0,1,258,2^31,2^32-1}, presence flags and all three control bytes; well-formed extended-length frames for register, authenticate (every handle length 0..255) and version; distinct by (operation, handle length, counter, presence, store type, position); non-trivial when a signature or a raw encoding was produced and checked",
+        "register/authenticate sequences over Option<Passkey>, MemoryStore and the reference store with random and patterned challenges/applications, key handles of 0..255 bytes (also long ones agreeing in their first 64 bytes, over a reference store that keeps one credential per RP and account), counters {0,1,258,2^31,2^32-1}, presence flags and all three control bytes; well-formed extended-length frames for register, authenticate (every handle length 0..255) and version; distinct by (operation, handle length, counter, presence, store type, position); non-trivial when a signature or a raw encoding was produced and checked",
     );
     rep.assumptions.push("the signature may be DER or fixed-size r||s: the statement does not fix the encoding (observed form recorded)".into());
     let only = replay_index(args);
@@ -345,6 +355,8 @@ pub fn run(args: &Args) -> Report {
         match kind {
             StoreKind::Rec => {
                 let rig = Rig::ok(Disc::Full);
+                // half of the reference stores keep one credential per (RP ID, account), as CTAP2 prescribes
+                rig.store.set_one_per_account(i % 6 < 3);
                 let mut a = rig.auth(AuthCfg::default());
                 // every fourth history starts with a registration the store refuses (any status byte,
                 // CTAP1- or CTAP2-class): no key and signature may be handed out for it
